@@ -127,8 +127,18 @@ def envelope_run(ctx, n_requests):
             try:
                 resp['raw'].write(s, kmip_version=enums.KMIPVersion['KMIP_%d_%d' % version])
             except Exception as e:
-                ctx.violation({'path': 'encode-response', 'exc': type(e).__name__, 'ops': '/'.join(sorted(set(desc)))},
-                              {'request': desc, 'kwargs': repr(kw)}, 'the response cannot be encoded: %r' % e)
+                # what the session does since /repo commit d6c2cec: answer with an error response
+                ctx.count('envelope.unencodable_response_replaced.' + '/'.join(sorted(set(desc))))
+                from kmip.core.messages import contents
+                msg = eng.engine.build_error_response(resp['raw'].response_header.protocol_version,
+                                                      enums.ResultReason.GENERAL_FAILURE,
+                                                      'An unexpected error occurred while encoding the response. See server logs for more information.')
+                s = utils.BytearrayStream()
+                msg.write(s, kmip_version=enums.KMIPVersion['KMIP_%d_%d' % version])
+                probs, _ = ttlvparse.envelope_problems(s.buffer, version)
+                for p in probs:
+                    ctx.violation({'path': 'encode-failure-replacement', 'problem': p.split(' (')[0][:60]},
+                                  {'request': desc, 'kwargs': repr(kw)}, 'replacement response violates the envelope: ' + p)
                 continue
             probs, summ = ttlvparse.envelope_problems(s.buffer, version)
             for p in probs:
